@@ -1,6 +1,7 @@
 package main
 
 import (
+	"sort"
 	"fmt"
 	"go/constant"
 	"go/token"
@@ -45,125 +46,209 @@ func sameChan(a, b ssa.Value) bool {
 
 func ruleLockset(c *Check, p *Program, rule string) {
 	n := 0
-	for _, fn := range moduleFuncs(p, pkgStream) {
-		allInstrs(fn, func(in ssa.Instruction) {
-			var addr ssa.Value
-			kind := ""
-			switch x := in.(type) {
-			case *ssa.Store:
-				addr, kind = x.Addr, "store"
-			case *ssa.UnOp:
-				if x.Op == token.MUL {
-					addr, kind = x.X, "load"
+	desc := "every access to the shared error latch Blocks.err is protected: under Blocks.mu, or confined to the single ordering goroutine of the Writer, or in Blocks.close where no goroutine exists / after the shutdown hand-shake"
+	// the ordering goroutine: whatever the go statement(s) of Blocks.initW start
+	ordering := map[*ssa.Function]bool{}
+	if iw := p.Func("internal/lz4stream", "Blocks.initW"); iw != nil {
+		for _, f := range withAnon(iw) {
+			allInstrs(f, func(in ssa.Instruction) {
+				if g, ok := in.(*ssa.Go); ok {
+					if t := goTarget(g); t != nil {
+						ordering[t] = true
+					}
+				}
+			})
+		}
+	}
+	var fns []*ssa.Function
+	seenFn := map[*ssa.Function]bool{}
+	for _, fn := range moduleFuncs(p, pkgStream, pkgRoot) {
+		for _, f := range withAnon(fn) {
+			if !seenFn[f] {
+				seenFn[f] = true
+				fns = append(fns, f)
+			}
+		}
+	}
+	callersOf := func(f *ssa.Function) []ssa.CallInstruction {
+		var out []ssa.CallInstruction
+		for _, g := range fns {
+			for _, ci := range callsIn(g) {
+				if staticCallee(ci) == f {
+					out = append(out, ci)
+				} else if gi, isGo := ci.(*ssa.Go); isGo && goTarget(gi) == f {
+					out = append(out, ci)
 				}
 			}
-			if addr == nil || lastField(addr) != "Blocks.err" {
-				return
+		}
+		return out
+	}
+	var protectedAt func(fn *ssa.Function, at ssa.Instruction, depth int) (bool, string)
+	protectedAt = func(fn *ssa.Function, at ssa.Instruction, depth int) (bool, string) {
+		// (1) the ordering goroutine itself (or a closure nested in it)
+		for f := fn; f != nil; f = f.Parent() {
+			if ordering[f] {
+				return true, "inside the Writer's single ordering goroutine (Blocks.close reads the latch only after the hand-shake)"
+			}
+		}
+		// (2) under the mutex
+		if lockHeldAt(fn, at) {
+			return true, "Blocks.mu.Lock dominates the access with no Unlock in between"
+		}
+		// (3) in Blocks.close: every path to the access takes the sequential edge, the
+		// no-pipeline edge, or passes the hand-shake receive
+		if shortFn(fn) == "Blocks.close" {
+			safeEdge := func(from *ssa.BasicBlock, k int) bool {
+				ifi, ok := from.Instrs[len(from.Instrs)-1].(*ssa.If)
+				if !ok {
+					return false
+				}
+				a := atomOf(ifi.Cond, k == 0)
+				if a.Kind == "cmp" && a.Val {
+					if b, isB := a.V.(*ssa.BinOp); isB && b.Op == token.EQL {
+						if kk, isK := constUint(b.Y); isK && kk == 1 {
+							return true // num == 1: sequential, no goroutine
+						}
+					}
+				}
+				if a.Kind == "isnil" && a.Val && loadField(a.V) == "Blocks.Blocks" {
+					return true // no pipeline
+				}
+				return false
+			}
+			seen := map[*ssa.BasicBlock]bool{}
+			unsafe := false
+			var walk func(b *ssa.BasicBlock)
+			walk = func(b *ssa.BasicBlock) {
+				if seen[b] || unsafe {
+					return
+				}
+				seen[b] = true
+				for _, j := range b.Instrs {
+					if j == at {
+						unsafe = true
+						return
+					}
+					if _, isR := isRecv(j); isR {
+						return
+					}
+				}
+				for k, s := range b.Succs {
+					if safeEdge(b, k) {
+						continue
+					}
+					walk(s)
+				}
+			}
+			if len(fn.Blocks) > 0 {
+				walk(fn.Blocks[0])
+			}
+			if !unsafe {
+				return true, "in Blocks.close every path to the access is sequential (num == 1), has no pipeline (Blocks == nil) or has passed the shutdown hand-shake receive"
+			}
+			return false, "access in Blocks.close is reachable on a path that is neither goroutine-free nor after the hand-shake"
+		}
+		// (4) a helper: protected at every call site
+		if depth > 0 {
+			cs := callersOf(fn)
+			if len(cs) > 0 {
+				all := true
+				how := ""
+				for _, ci := range cs {
+					if gi, isGo := ci.(*ssa.Go); isGo {
+						if !ordering[goTarget(gi)] {
+							all = false
+						}
+						continue
+					}
+					okc, h := protectedAt(ci.Parent(), ci, depth-1)
+					if !okc {
+						all = false
+					}
+					how = h
+				}
+				if all {
+					return true, "helper called only from protected sites: " + how
+				}
+			}
+		}
+		return false, "access to Blocks.err in " + shortFn(fn) + " without holding Blocks.mu (concurrent workers, the reader goroutine and the consumer all use the latch)"
+	}
+	for _, fn := range fns {
+		ord := 0
+		var accs []ssa.Instruction
+		allInstrs(fn, func(in ssa.Instruction) {
+			var addr ssa.Value
+			switch x := in.(type) {
+			case *ssa.Store:
+				addr = x.Addr
+			case *ssa.UnOp:
+				if x.Op == token.MUL {
+					addr = x.X
+				}
+			}
+			if addr != nil && lastField(addr) == "Blocks.err" {
+				accs = append(accs, in)
+			}
+		})
+		sort.SliceStable(accs, func(i, j int) bool { return accs[i].Pos() < accs[j].Pos() })
+		for _, in := range accs {
+			kind := "load"
+			if _, isSt := in.(*ssa.Store); isSt {
+				kind = "store"
 			}
 			n++
 			c.Sites++
 			c.Funcs[fname(fn)] = true
-			sfn := shortFn(fn)
-			key := fmt.Sprintf("Blocks.err#%s#%s#%d", sfn, kind, n)
-			// stable key: function + kind + ordinal within function
-			ord := 0
-			allInstrs(fn, func(j ssa.Instruction) {
-				var a2 ssa.Value
-				switch y := j.(type) {
-				case *ssa.Store:
-					a2 = y.Addr
-				case *ssa.UnOp:
-					if y.Op == token.MUL {
-						a2 = y.X
-					}
-				}
-				if a2 != nil && lastField(a2) == "Blocks.err" && j.Pos() <= in.Pos() && j != in {
-					ord++
-				}
-			})
-			key = fmt.Sprintf("Blocks.err#%s#%s%d", sfn, kind, ord)
-			desc := "every access to the shared error latch Blocks.err is protected: under Blocks.mu, or confined to the single ordering goroutine of the Writer, or in Blocks.close where no goroutine exists / after the shutdown hand-shake"
-			switch {
-			case strings.HasPrefix(sfn, "Blocks.initW$"):
-				c.OK(rule, key, p.InstrPos(in), desc, "inside the Writer's single ordering goroutine (the Writer side never shares the latch while it runs: Blocks.close reads it only after the hand-shake)", true)
-			case sfn == "Blocks.close":
-				ats := atomsOfBlock(in.Block())
-				okk := false
-				how := ""
-				for _, a := range ats {
-					if a.Kind == "cmp" && a.Val {
-						if b, isB := a.V.(*ssa.BinOp); isB && b.Op == token.EQL {
-							if k, isK := constUint(b.Y); isK && k == 1 {
-								okk, how = true, "sequential branch (num == 1): no goroutine"
-							}
-						}
-					}
-					if a.Kind == "isnil" && a.Val && loadField(a.V) == "Blocks.Blocks" {
-						okk, how = true, "no pipeline (Blocks == nil): no goroutine"
-					}
-				}
-				if !okk {
-					// after the hand-shake receive
-					recvBefore := false
-					for _, j := range in.Block().Instrs {
-						if j == in {
-							break
-						}
-						if _, isR := isRecv(j); isR {
-							recvBefore = true
-						}
-					}
-					if recvBefore {
-						okk, how = true, "after the shutdown hand-shake receive (the ordering goroutine has returned)"
-					}
-				}
-				if okk {
-					c.OK(rule, key, p.InstrPos(in), desc, how, true)
-				} else {
-					c.Fail(rule, key, p.InstrPos(in), desc, "access in Blocks.close is neither on a goroutine-free branch nor after the hand-shake")
-				}
-			default:
-				// must hold the mutex: a Lock call on Blocks.mu dominates, and an Unlock (possibly deferred) exists
-				locked := false
-				for _, ci := range callsIn(fn) {
-					if f := staticCallee(ci); f != nil && f.Name() == "Lock" && strings.Contains(f.String(), "sync.Mutex") {
-						if _, isDefer := ci.(*ssa.Defer); isDefer {
-							continue
-						}
-						if lastField(ci.Common().Args[0]) == "Blocks.mu" {
-							lb := ci.Block()
-							if (lb == in.Block() && idxOf(ci) < idxOf(in)) || (lb != in.Block() && lb.Dominates(in.Block())) {
-								// no Unlock between
-								isUnlock := func(j ssa.Instruction) bool {
-									cj, ok := j.(ssa.CallInstruction)
-									if !ok {
-										return false
-									}
-									if _, isDefer := cj.(*ssa.Defer); isDefer {
-										return false
-									}
-									g := staticCallee(cj)
-									return g != nil && g.Name() == "Unlock" && strings.Contains(g.String(), "sync.Mutex")
-								}
-								target := func(j ssa.Instruction) bool { return j == in }
-								if r, _ := reachAvoid(fn, ci, target, isUnlock); r {
-									// and not reachable from entry avoiding the lock
-									isLock := func(j ssa.Instruction) bool { return j == ci.(ssa.Instruction) }
-									if r2, _ := reachAvoid(fn, nil, target, isLock); !r2 {
-										locked = true
-									}
-								}
-							}
-						}
-					}
-				}
-				c.Cond(locked, rule, key, p.InstrPos(in), desc, "Blocks.mu.Lock dominates the access with no Unlock in between", "access to Blocks.err in "+sfn+" without holding Blocks.mu (concurrent workers, the reader goroutine and the consumer all use the latch)")
+			key := fmt.Sprintf("Blocks.err#%s#%s%d", shortFn(fn), kind, ord)
+			ord++
+			okk, how := protectedAt(fn, in, 2)
+			if okk {
+				c.OK(rule, key, p.InstrPos(in), desc, how, true)
+			} else {
+				c.Fail(rule, key, p.InstrPos(in), desc, how)
 			}
-		})
+		}
 	}
-	if n < 8 {
-		c.Fail(rule, "Blocks.err#floor", "", "the accesses to Blocks.err are resolved", fmt.Sprintf("only %d accesses found (confirmed by reading: 12)", n))
+	if n < 4 {
+		c.Fail(rule, "Blocks.err#floor", "", "the accesses to Blocks.err are resolved", fmt.Sprintf("only %d accesses found (confirmed by reading: at least 7)", n))
 	}
+}
+
+// lockHeldAt: a Blocks.mu.Lock call dominates at, with no Unlock on any path between them.
+func lockHeldAt(fn *ssa.Function, in ssa.Instruction) bool {
+	locked := false
+	for _, ci := range callsIn(fn) {
+		if f := staticCallee(ci); f != nil && f.Name() == "Lock" && strings.Contains(f.String(), "sync.Mutex") {
+			if _, isDefer := ci.(*ssa.Defer); isDefer {
+				continue
+			}
+			if lastField(ci.Common().Args[0]) == "Blocks.mu" {
+				lb := ci.Block()
+				if (lb == in.Block() && idxOf(ci) < idxOf(in)) || (lb != in.Block() && lb.Dominates(in.Block())) {
+					isUnlock := func(j ssa.Instruction) bool {
+						cj, ok := j.(ssa.CallInstruction)
+						if !ok {
+							return false
+						}
+						if _, isDefer := cj.(*ssa.Defer); isDefer {
+							return false
+						}
+						g := staticCallee(cj)
+						return g != nil && g.Name() == "Unlock" && strings.Contains(g.String(), "sync.Mutex")
+					}
+					target := func(j ssa.Instruction) bool { return j == in }
+					if r, _ := reachAvoid(fn, ci, target, isUnlock); r {
+						isLock := func(j ssa.Instruction) bool { return j == ci.(ssa.Instruction) }
+						if r2, _ := reachAvoid(fn, nil, target, isLock); !r2 {
+							locked = true
+						}
+					}
+				}
+			}
+		}
+	}
+	return locked
 }
 
 // ---------------------------------------------------------------------------
@@ -282,7 +367,7 @@ func ruleCloseOnce(c *Check, p *Program, rule string) {
 		return
 	}
 	done := false
-	for _, fn := range withAnon(iw)[1:] {
+	for _, fn := range orderingFns(iw) {
 		// receive of the per-block channel from the queue: a commaok receive yielding a chan
 		var ch ssa.Value
 		var recv ssa.Instruction
@@ -618,9 +703,27 @@ func ruleHandOff(c *Check, p *Program, rule string) {
 // concurrent mode and reaches a return or a read of Writer.data (load followed
 // by copy/slice) without passing an instruction satisfying fresh.
 func handoffPath(fn *ssa.Function, ci ssa.CallInstruction, fresh iPred) (bool, string) {
-	type st struct {
-		b   *ssa.BasicBlock
-		idx int
+	return handoffWalk(ci.Block(), idxOf(ci)+1, fresh, 2)
+}
+
+// handoffWalk searches, from (start, from), a path along non-sequential,
+// non-error edges to a return or to a use of w.data that does not pass an
+// instruction satisfying fresh. A call to a module helper on whose every such
+// path from its entry fresh holds counts as fresh (extracted helpers).
+func handoffWalk(start *ssa.BasicBlock, startIdx int, fresh0 iPred, depth int) (bool, string) {
+	fresh := func(in ssa.Instruction) bool {
+		if fresh0(in) {
+			return true
+		}
+		if depth > 0 {
+			if call, ok := in.(*ssa.Call); ok {
+				if f := staticCallee(call); f != nil && f.Pkg != nil && f.Pkg.Pkg.Path() == pkgRoot && len(f.Blocks) > 0 && f.Name() != "write" && f.Name() != "isNotConcurrent" {
+					bad, _ := handoffWalk(f.Blocks[0], 0, fresh0, depth-1)
+					return !bad
+				}
+			}
+		}
+		return false
 	}
 	seen := map[*ssa.BasicBlock]bool{}
 	var found bool
@@ -672,7 +775,7 @@ func handoffPath(fn *ssa.Function, ci ssa.CallInstruction, fresh iPred) (bool, s
 			walk(s, 0)
 		}
 	}
-	walk(ci.Block(), idxOf(ci)+1)
+	walk(start, startIdx)
 	return found, where
 }
 
@@ -902,4 +1005,38 @@ func ruleReaderShutdown(c *Check, p *Program, rule string) {
 		})
 		c.Cond(nClose >= 2, rule, "initR.collector#answers", p.Pos(collector.Pos()), "the collector closes the per-block channel after forwarding a buffer and when it receives the sentinel (the reader goroutine waits for that)", fmt.Sprintf("%d close(c) sites", nClose), "the collector does not close the per-block channel on both the data path and the sentinel path")
 	}
+}
+
+// orderingFns: the functions that run in the Writer's ordering goroutine: the
+// targets of the go statements of Blocks.initW (closures or methods), closures
+// nested in them, and the module helpers they call synchronously.
+func orderingFns(iw *ssa.Function) []*ssa.Function {
+	seen := map[*ssa.Function]bool{}
+	var out []*ssa.Function
+	var add func(f *ssa.Function, depth int)
+	add = func(f *ssa.Function, depth int) {
+		if f == nil || seen[f] || len(f.Blocks) == 0 {
+			return
+		}
+		seen[f] = true
+		out = append(out, f)
+		for _, a := range f.AnonFuncs {
+			add(a, depth)
+		}
+		if depth > 0 {
+			for _, g := range calleesOf(f) {
+				if g.Pkg == iw.Pkg {
+					add(g, depth-1)
+				}
+			}
+		}
+	}
+	for _, f := range withAnon(iw) {
+		allInstrs(f, func(in ssa.Instruction) {
+			if g, ok := in.(*ssa.Go); ok {
+				add(goTarget(g), 2)
+			}
+		})
+	}
+	return out
 }
